@@ -28,8 +28,9 @@ def bits(m):
 
 
 class FlagAnalysis:
-    def __init__(self, F):
+    def __init__(self, F, tys=("u8",)):
         self.F = F
+        self.tys = tys
         self.loc = {}
         self._busy = set()
         self.changed = False
@@ -70,7 +71,7 @@ class FlagAnalysis:
         k = e[0]
         if k == "const":
             v = e[2]
-            return (v & 0xFF, v & 0xFF) if isinstance(v, int) else TOP
+            return (v & 0xFF, v & 0xFF) if isinstance(v, int) and 0 <= v <= 0xFF else TOP
         if k == "bin":
             a, b = self.ev(fn, e[2], depth + 1), self.ev(fn, e[3], depth + 1)
             if e[1] == "BitOr":
@@ -151,7 +152,7 @@ class FlagAnalysis:
                 if not fn.has_body:
                     continue
                 # returns
-                if fn.j.get("ret") == "u8":
+                if fn.j.get("ret") in self.tys:
                     r = fn.expr_local(0)
                     self.put(("ret", p), self.ev(fn, r))
                 # call sites -> params of local callees
@@ -161,29 +162,29 @@ class FlagAnalysis:
                     if callee is None:
                         continue
                     for ai, a in enumerate(t["args"]):
-                        if ai + 1 <= callee.argc and callee.locals[ai + 1]["ty"] == "u8":
+                        if ai + 1 <= callee.argc and callee.locals[ai + 1]["ty"] in self.tys:
                             self.put(("param", name, ai + 1), self.ev(fn, fn.expr_operand(a)))
                 # stores into u8 fields and struct literals
                 for bi, si, s in fn.stmts():
                     if s["k"] != "assign":
                         continue
                     pl, rv = s["place"], s["rv"]
-                    if pl["p"] and isinstance(pl["p"][-1], dict) and "f" in pl["p"][-1] and pl["p"][-1]["ty"] == "u8":
+                    if pl["p"] and isinstance(pl["p"][-1], dict) and "f" in pl["p"][-1] and pl["p"][-1]["ty"] in self.tys:
                         self.put(("field", pl["p"][-1]["of"], pl["p"][-1]["f"]), self.ev(fn, fn.expr_rvalue(rv)))
                     if rv["k"] == "agg" and rv.get("agg") == "adt":
                         adt = F.adts.get(rv["adt"])
                         if adt:
                             vs = [v for v in adt["variants"] if v["name"] == rv["variant"]]
                             for fld, o in zip(vs[0]["fields"] if vs else [], rv["ops"]):
-                                if fld["ty"] == "u8":
+                                if fld["ty"] in self.tys:
                                     self.put(("field", rv["adt"], fld["name"]), self.ev(fn, fn.expr_operand(o)))
             if not self.changed:
                 break
 
 
-def analysis(F):
+def analysis(F, tys=("u8",)):
     if not hasattr(F, "_flag_analysis"):
-        F._flag_analysis = FlagAnalysis(F)
+        F._flag_analysis = FlagAnalysis(F, tys)
     return F._flag_analysis
 
 
